@@ -239,7 +239,7 @@ func (w *World) cycleInvariants(c *cycleRec, tr *cyc.CycleTrace, phase string) {
 				if p == nil || !p.Running || !s.Ready || !s.StatusOK || len(s.RT) == 0 || !s.RTLastOK {
 					continue
 				}
-				podSem := SemOf(string(p.SC.ConfigManager.ConfigInfo().RawContent))
+				podSem := SemOf(p.SC.ConfigText())
 				coordSem := SemOf(c.Raw)
 				mode := "push"
 				if p.FileMode {
